@@ -15,7 +15,7 @@ from . import core
 # PINNED is the mechanism of the pinned commit: kept as a design-level canary — the
 # properties must FAIL on it (that is how the defects D6..D14 were exhibited by TLC).
 MECH = dict(MStopBeforeUpdate=True, MSqueeze=False, MTimesZeroFirst=True, MRollback=True,
-            MCleanClash=True, MEmptyLoads=True, MSaveValid=False, MFinalGuard=True, MResumeRepeats=True)
+            MCleanClash=True, MEmptyLoads=True, MSaveValid=True, MFinalGuard=True, MResumeRepeats=True)
 PINNED = dict(MStopBeforeUpdate=False, MSqueeze=True, MTimesZeroFirst=False, MRollback=False,
               MCleanClash=False, MEmptyLoads=False, MSaveValid=False, MFinalGuard=False, MResumeRepeats=False)
 
@@ -27,7 +27,7 @@ INV_C11 = ["ContentIndependentOfRecording", "ResumeReproduces"]
 INV_C15 = ["TypeOK", "AllHandlesClosedOnReturn", "NoTempLeft", "TempDirRemoved", "ForeignFilesUntouched",
            "NoStrayOutput", "FreshNameChosen", "OutputHoldsOnlyCompleteFrames", "CancelGivesUsableSolution",
            "ErrorPropagates", "FrameHoldsExactlyStepUpdates", "FrameTimeIsSumOfSteps",
-           "RecordsOncePerStepInOrderModKnown", "LoadedTimesModKnown", "LoadedDynamicsModKnown"]
+           "RecordsOncePerStepInOrder", "LoadedTimesAreFrameTimes", "LoadedDynamicsAreTheRecords"]
 INV_C19 = ["RejectedBeforeAnyFile", "IllPosedNeverRuns"]
 
 
